@@ -33,6 +33,10 @@ class ModuleInfo:
             self.tree = ast.parse(src, filename=rel)
         except SyntaxError as e:  # a tree that does not compile is not analysable
             raise AnalysisError("cannot parse %s: %s" % (rel, e))
+        # normal form shared by all checkers: table-driven loops unrolled, constant getattr / setattr folded
+        from . import unroll
+
+        self.tree, self.unrolled = unroll.normalise(self.tree)
         self.parent = {}
         for n in ast.walk(self.tree):
             for c in ast.iter_child_nodes(n):
